@@ -54,6 +54,10 @@ CHECKS = {
          "Exploration: 1.3k (quick) / 27k (thorough) type-system documents (random trees and valid generated schemas with hostile descriptions, extensions, schema directives, repeatable directives, described arguments) x 80 configurations, and 0.7k / 13k valid generated schemas (custom roots, default-root-named non-root types, extension-only types) loaded, formatted x 40 configurations, reloaded and compared canonically (types, fields, arguments, defaults, directives, roots, relations, descriptions); the second format must reproduce the first.",
          "FormatSchema with WithBuiltin is judged for totality only (its output repeats the prelude and cannot be loaded by design). Two defects repaired (9f2bb02, 13d6633); five recorded findings, three of them pinned by the repository's golden files.",
          "DESIGN.md §4 C13"),
+ "C14": ("total-function monitor (panic observer) + independent conformance predicate on every returned value + defect-injection oracle (values that cannot conform must be rejected)",
+         "Exploration: 270 variable types (every non-null pattern of list depth 0-3 over 5 built-in scalars, an enum, a recursive input object, a @oneOf object, a custom scalar) x 46 (quick) / 1150 (thorough) x 16 calls = 199k / 5M VariableValues calls with type-directed Go values (all numeric Go kinds, json.Number, typed slices, nested maps), one injected defect at a random depth in ~75% of them, single values for lists at every depth, omitted variables with and without defaults.",
+         "The conformance predicate accepts the leniencies listed in the evidence (float for Int, numeric strings, json.Number, case-variant enum names, __typename key); @oneOf cardinality is outside the statement. Two defects repaired (e6343ba, 5280a2d).",
+         "DESIGN.md §4 C14"),
  "C16": ("limit-exactness oracle against an independent reference token count, every limit 0..T+2; hook counters (lexer reads, last scanned byte) for the work bound; lowered stack ceiling for recursion depth",
          "Exploration: ~8k (quick) / 60k (thorough) documents of both grammars (valid and single-token-mutated, comments everywhere) are parsed under every limit from 0 to T+2 through ParseQueryWithTokenLimit, ParseSchemaWithLimit and ParseSchemasWithLimit (per-source limits); success must be exact (L=0 or L>=T reproduces the unlimited tree by reflect.DeepEqual; 0<L<T fails) and monotone, and every limit failure must have read at most L+2 tokens and scanned no byte beyond reference token L+2. 1-8 MiB floods (nesting, tokens, comments) under limits 1..15000 run with a 32 MiB stack ceiling so unbounded recursion is a fatal exit.",
          "T comes from the reference lexer (C03); when the unlimited parse fails only failure (not the error text) is required of limits >= T, because the property asks no more. Work is measured in hook counters, not time.",
